@@ -1,6 +1,9 @@
 use std::{cell::Cell, marker::PhantomData, ptr::NonNull};
 
 mod cell;
+#[cfg(metrics_verif)]
+#[doc(hidden)]
+pub use self::cell::RecorderOnceCell as __VerifRecorderOnceCell;
 use self::cell::RecorderOnceCell;
 
 mod errors;
